@@ -11,7 +11,7 @@ PRELUDE = r'''
 #include <netinet/in.h>
 #include <arpa/inet.h>
 #include <string.h>
-int vs_exc; size_t g_fact_idx[4]; char g_fact_ch[4]; unsigned g_fact_n; size_t g_w; long g_strtol_ret; char g_strtol_endc;
+int vs_exc; size_t g_fact_idx[4]; char g_fact_ch[4]; unsigned g_fact_n; size_t g_nofact_from[2]; char g_nofact_ch[2]; unsigned g_nofact_n; size_t g_w; long g_strtol_ret; char g_strtol_endc;
 /* ghost: where inet_ntop put the terminator, which family it printed and from which source */
 size_t g_ntop_len; int g_ntop_af; const void *g_ntop_src; unsigned g_ntop_calls;
 /* ghost sample: byte g_k of the address that was printed (g_k is any index below the address size) */
@@ -29,6 +29,31 @@ __CPROVER_ensures(g_ntop_len < size && dst[g_ntop_len] == 0 && g_ntop_len >= (af
 __CPROVER_ensures(g_ntop_af == af && g_ntop_src == src && g_ntop_calls == OLD(g_ntop_calls) + 1)
 __CPROVER_ensures(g_ntop_byte == ((const unsigned char *)src)[NTOP_K(af)]);
 /* std::string(const char*): reads up to and including the terminator */
+/* std::ostream: what is inserted, in order (at most 8 insertions are kept) */
+struct vs_ostream { char unused; };
+#define EM_LIT 1
+#define EM_STR 2     /* a std::string: identified by the inet_ntop call it came from (g_ntop_calls at that time) and its length */
+#define EM_NUM 3
+int g_em_kind[8]; long g_em_num[8]; char g_em_c0[8], g_em_c1[8]; size_t g_em_n;
+static inline struct vs_ostream *vs_os_lit(struct vs_ostream *os, const char *p)
+{
+    if (g_em_n < 8) { g_em_kind[g_em_n] = EM_LIT; g_em_c0[g_em_n] = p[0]; g_em_c1[g_em_n] = p[0] ? p[1] : 0; g_em_num[g_em_n] = 0; }
+    if (g_em_n < 100) g_em_n++;
+    return os;
+}
+static inline struct vs_ostream *vs_os_str(struct vs_ostream *os, const struct vs_nstr *s)
+{
+    if (g_em_n < 8) { g_em_kind[g_em_n] = EM_STR; g_em_num[g_em_n] = (long)s->size; g_em_c0[g_em_n] = 0; g_em_c1[g_em_n] = 0; }
+    if (g_em_n < 100) g_em_n++;
+    return os;
+}
+static inline struct vs_ostream *vs_os_num(struct vs_ostream *os, long v)
+{
+    if (g_em_n < 8) { g_em_kind[g_em_n] = EM_NUM; g_em_num[g_em_n] = v; g_em_c0[g_em_n] = 0; g_em_c1[g_em_n] = 0; }
+    if (g_em_n < 100) g_em_n++;
+    return os;
+}
+#define EM_LIT1(i, c) (g_em_kind[i] == EM_LIT && g_em_c0[i] == (c) && g_em_c1[i] == 0)
 static inline struct vs_nstr vs_nstr_from_cstr(const char *p)
 {
     struct vs_nstr r;
@@ -38,19 +63,21 @@ static inline struct vs_nstr vs_nstr_from_cstr(const char *p)
     return r;
 }
 '''
-TYPES = {'std::string': 'struct vs_nstr', 'std::size_t': 'size_t', 'struct sockaddr_in': 'struct sockaddr_in', 'struct sockaddr_in6': 'struct sockaddr_in6',
+TYPES = {'std::ostream': 'struct vs_ostream', 'std::string': 'struct vs_nstr', 'std::size_t': 'size_t', 'struct sockaddr_in': 'struct sockaddr_in', 'struct sockaddr_in6': 'struct sockaddr_in6',
          'sockaddr_in': 'struct sockaddr_in', 'sockaddr_in6': 'struct sockaddr_in6', 'in_addr_t': 'in_addr_t', 'struct in6_addr': 'struct in6_addr', 'in6_addr': 'struct in6_addr'}
 STUBS = {
     'inet_ntop': 'vs_inet_ntop', 'memcpy': 'memcpy',
     'ctor:std::string/1': {'expr': 'vs_nstr_from_cstr($0)'},
     'var:in6addr_any': 'in6addr_any',
+    'operator<<|std::ostream,char': 'vs_os_lit', 'operator<<|std::ostream,std::string': 'vs_os_str',
+    'operator<<|std::ostream,unsigned short': {'expr': '(*vs_os_num(&($0), (long)($1)))'}, 'operator<<|std::ostream,int': {'expr': '(*vs_os_num(&($0), (long)($1)))'},
     # members of the C structs of <netinet/in.h>, used as they are
     'field:sockaddr_in::sin_addr': '$.sin_addr', 'field:in_addr::s_addr': '$.s_addr',
     'field:sockaddr_in6::sin6_addr': '$.sin6_addr', 'field:in6_addr::__in6_u': '$.__in6_u', 'field:in6_addr::(anonymous union)::__u6_addr16': '$.__u6_addr16',
 }
 THROWING = []
 ALWAYS_REPLACE = ['vs_inet_ntop']
-RECORDS = ['Pistache::IP']
+RECORDS = ['Pistache::IP', 'Pistache::Port', 'Pistache::Address']
 OPAQUE = []
 EXCEPTIONS = {}
 DEFAULT_RULE = False
@@ -67,7 +94,22 @@ FUNCTIONS = [
         # ... of the stored address: every byte handed to inet_ntop is the corresponding byte of the stored address (g_k samples any byte)
         ensures this->family == AF_INET ==> g_ntop_byte == ((const unsigned char *)&this->addr.sin_addr.s_addr)[g_k % 4]
         ensures this->family == AF_INET6 ==> g_ntop_byte == this->addr6.sin6_addr.s6_addr[g_k % 16]"""},
+    {'q': 'Pistache::IP::getFamily'}, {'q': 'Pistache::Address::family'}, {'q': 'Pistache::Address::host'}, {'q': 'Pistache::Address::port'},
+    {'q': 'Pistache::Port::operator unsigned short', 'c': 'Pistache_Port_to_u16'},
+    {'q': 'Pistache::operator<<', 'sig': 'const Pistache::Address &', 'c': 'Address_print', 'contract': """
+        requires FRESH(os, sizeof(*os)) && FRESH(address, sizeof(*address)) && (address->ip_.family == AF_INET || address->ip_.family == AF_INET6)
+        requires vs_exc == 0 && g_ntop_calls == 0 && g_em_n == 0
+        assigns g_ntop_len, g_ntop_af, g_ntop_src, g_ntop_calls, g_ntop_byte, g_em_n, __CPROVER_object_whole(g_em_kind), __CPROVER_object_whole(g_em_num),
+                __CPROVER_object_whole(g_em_c0), __CPROVER_object_whole(g_em_c1)
+        # C19 (printing gives back an equivalent text): host ":" port, an IPv6 host in brackets -- the form Address(std::string) reads;
+        # the host text is IP::toString()'s (one conversion of the stored family), the port is the stored number
+        ensures vs_exc == 0 && PTR_EQ(RET, os) && g_ntop_calls == 1 && g_ntop_af == address->ip_.family
+        ensures address->ip_.family == AF_INET ==> (g_em_n == 3 && g_em_kind[0] == EM_STR && (size_t)g_em_num[0] == g_ntop_len && EM_LIT1(1, ':')
+                                                    && g_em_kind[2] == EM_NUM && g_em_num[2] == address->port_.port)
+        ensures address->ip_.family == AF_INET6 ==> (g_em_n == 5 && EM_LIT1(0, '[') && g_em_kind[1] == EM_STR && (size_t)g_em_num[1] == g_ntop_len && EM_LIT1(2, ']')
+                                                     && EM_LIT1(3, ':') && g_em_kind[4] == EM_NUM && g_em_num[4] == address->port_.port)"""},
 ]
 PROOFS = [
     {'name': 'IP_toString', 'enforce': 'Pistache_IP_toString', 'props': ['C19']},
+    {'name': 'Address_print', 'enforce': 'Address_print', 'props': ['C19']},
 ]
